@@ -8,7 +8,9 @@
      prog_names_ok p   every type / constructor / destructor name is free of "[" "]" "," " " and is not
                        "i64" (true of every parsed program: the lexer's name classes);
      decl_types_wf ts  the types written inside data/codata declarations are well-formed (the
-                       complement of known finding C15-lazy-declaration-types). *)
+                       complement of the former finding C15-lazy-declaration-types; since fix <commit15>
+                       implied by acceptance: Proof/CheckDecls.v, and the unguarded theorems are in
+                       Proof/CheckFixed.v). *)
 From Coq Require Import List ZArith String Bool Permutation.
 From SCC Require Import Lang.FunSyn Model.Check Sem.FunTyping
   Proof.CheckWitness Proof.CheckBuild Proof.PrintInj Proof.CheckPoly Proof.CheckPolySound Proof.CheckPolyProg
